@@ -4,7 +4,7 @@
 use std::net::IpAddr;
 
 use dns_resolver::cache::{verif as clock, SharedCache};
-use dns_resolver::util::types::{ProtocolMode, ResolvedRecord};
+use dns_resolver::util::types::{ProtocolMode, ResolutionError, ResolvedRecord};
 use dns_types::protocol::types::*;
 use dns_types::zones::types::Zones;
 use serde::{Deserialize, Serialize};
@@ -157,37 +157,54 @@ pub fn compare_with_truth(res: &ResolvedRecord, t: &Truth) -> Result<(), (String
 
 /// Each referral followed for a question is strictly closer to the question
 /// name than the zone the previous server was asked as.
-pub fn referrals_monotone(u: &Universe, log: &[Exchange]) -> Result<u32, (String, String)> {
+///
+/// The session's own question is resolved in exactly one attempt (it stays on
+/// the resolver's question stack throughout, so that it cannot recur as a
+/// sub-question): the zones asked about it must get strictly deeper, a TCP
+/// retry at the same server excepted.  The address look-ups for nameserver
+/// hosts can be attempted several times within one resolution, and a later
+/// attempt legitimately starts higher up than the previous one ended (the
+/// cached NS set of the question's own name is invisible to sub-questions,
+/// because looking it up would repeat the question on the stack): for those an
+/// attempt ends with its first reply that is not a referral, and the rule
+/// holds within an attempt.
+pub fn referrals_monotone(u: &Universe, log: &[Exchange], main: &WQ) -> Result<u32, (String, String)> {
     use std::collections::BTreeMap;
+    let main = WQ { name: main.name.lower(), qtype: main.qtype, qclass: main.qclass };
     let mut last_depth: BTreeMap<WQ, (usize, IpAddr, bool)> = BTreeMap::new();
     let mut referrals = 0;
     for e in log {
         let Some(q) = question_of(e.request.as_ref()) else { continue };
+        let q = WQ { name: q.name.lower(), qtype: q.qtype, qclass: q.qclass };
+        let is_main = q == main;
         let served = u.zones_at(e.dest.ip());
         let depth = served
             .iter()
-            .filter(|i| q.name.lower().is_at_or_below(&u.zones[**i].apex))
+            .filter(|i| q.name.is_at_or_below(&u.zones[**i].apex))
             .map(|i| u.zones[*i].apex.depth())
             .max();
         let Some(depth) = depth else {
             return Err(("asked-unrelated-server".into(), format!("{} asked about {} which it does not serve", e.dest, q.name)));
         };
-        if let Some((prev, _, _)) = last_depth.get(&q) {
-            // The same question may be put again at the same depth (TCP retry,
-            // another nameserver of the zone, a later sub-resolution that
-            // starts from the cached delegation); it must never go back up.
-            if depth < *prev {
+        if let Some((prev, prev_ip, prev_tcp)) = last_depth.get(&q) {
+            let tcp_retry = e.tcp && !*prev_tcp && *prev_ip == e.dest.ip();
+            if depth < *prev || (is_main && depth == *prev && !tcp_retry) {
                 return Err((
                     "referral-not-closer".into(),
                     format!("question {} {}: asked a server at depth {depth} after one at depth {prev}", q.name, q.qtype),
                 ));
             }
         }
-        last_depth.insert(q, (depth, e.dest.ip(), e.tcp));
-        if let Some(r) = &e.reply {
-            if r.answers.is_empty() && r.authority.iter().any(|rr| rr.rtype == T_NS) {
-                referrals += 1;
-            }
+        let is_referral = e.reply.as_ref().map_or(false, |r| r.answers.is_empty() && r.authority.iter().any(|rr| rr.rtype == T_NS));
+        let truncated = e.reply.as_ref().map_or(false, |r| r.tc);
+        if is_referral {
+            referrals += 1;
+        }
+        if is_main || is_referral || truncated || e.reply.is_none() {
+            last_depth.insert(q, (depth, e.dest.ip(), e.tcp));
+        } else {
+            // a sub-question's attempt ended with this reply
+            last_depth.remove(&q);
         }
     }
     Ok(referrals)
@@ -204,11 +221,21 @@ impl PartialOrd for WQ {
     }
 }
 
-/// Does the cache hold an unexpired NS set for a zone enclosing `qname` none
-/// of whose hosts (all inside that zone) has an unexpired address any more?
-pub fn glue_expired_before_ns(u: &Universe, cache: &SharedCache, now: u64, qname: &N) -> bool {
+/// Does the cache hold an unexpired NS set for a zone enclosing `qname` for
+/// none of whose hosts an address of a usable family can be had: the hosts
+/// inside that zone have no unexpired address in the cache any more (at least
+/// one of them does have one in the authoritative data, so that fresh glue
+/// from the parent would help), and the hosts outside it have no address of a
+/// usable family at all.
+pub fn glue_expired_before_ns(u: &Universe, cache: &SharedCache, now: u64, qname: &N, protocol: u8) -> bool {
     let snap = cache.verif_snapshot();
     let hints = u.hints_zone();
+    let (use4, use6) = match protocol % 4 {
+        0 => (true, false),
+        3 => (false, true),
+        _ => (true, true),
+    };
+    let usable = |t: RecordType| (t == RecordType::A && use4) || (t == RecordType::AAAA && use6);
     for z in u.zones.iter().filter(|z| !z.apex.0.is_empty() && qname.is_at_or_below(&z.apex)) {
         let hosts: Vec<N> = snap
             .entries
@@ -219,12 +246,14 @@ pub fn glue_expired_before_ns(u: &Universe, cache: &SharedCache, now: u64, qname
         if hosts.is_empty() {
             continue;
         }
-        let stuck = hosts.iter().all(|h| {
-            let has_addr = snap.entries.iter().any(|e| N::from_domain(&e.0) == *h && (e.1 == RecordType::A || e.1 == RecordType::AAAA) && e.3 > now)
-                || hints.recs.iter().any(|r| r.owner == *h);
-            h.is_at_or_below(&z.apex) && !has_addr
-        });
-        if stuck {
+        let exists = |h: &N| u.host(h).map_or(false, |x| (use4 && !x.v4.is_empty()) || (use6 && !x.v6.is_empty()));
+        let held = |h: &N| {
+            snap.entries.iter().any(|e| N::from_domain(&e.0) == *h && usable(e.1) && e.3 > now)
+                || hints.recs.iter().any(|r| r.owner == *h && ((r.rtype == T_A && use4) || (r.rtype == T_AAAA && use6)))
+        };
+        let stuck = hosts.iter().all(|h| if h.is_at_or_below(&z.apex) { !held(h) } else { !exists(h) });
+        let glue_would_help = hosts.iter().any(|h| h.is_at_or_below(&z.apex) && exists(h));
+        if stuck && glue_would_help {
             return true;
         }
     }
@@ -293,7 +322,33 @@ impl Prop for Sessions {
                     // root-cause signature F15: the cache still holds the NS set of
                     // an enclosing zone but the addresses of all its (in-bailiwick)
                     // hosts have expired; the resolver does not go back up
-                    let sig = if glue_expired_before_ns(u, &cache, now_ns, &q.name.lower()) { "glue-expired-before-ns" } else { "resolution-failed" };
+                    // (judged for the name at which resolution stopped: the question
+                    // name or the alias target named by the error)
+                    // and for the names of the nameserver hosts that have to be
+                    // looked up on the way: everything the question depends on)
+                    let mut stuck_at = vec![q.name.lower()];
+                    if let ResolutionError::DeadEnd { question } = &e {
+                        stuck_at.push(N::from_domain(&question.name).lower());
+                    }
+                    for link in &t.chain {
+                        if let crate::rwire::WData::Name(target) = &link.2 {
+                            stuck_at.push(target.lower());
+                        }
+                    }
+                    let mut k = 0;
+                    while k < stuck_at.len() {
+                        let n = stuck_at[k].clone();
+                        for z in u.zones.iter().filter(|z| n.is_at_or_below(&z.apex)) {
+                            for h in &z.ns {
+                                if !stuck_at.contains(&h.lower()) {
+                                    stuck_at.push(h.lower());
+                                }
+                            }
+                        }
+                        k += 1;
+                    }
+                    let f15 = stuck_at.iter().any(|n| glue_expired_before_ns(u, &cache, now_ns, n, c.protocol));
+                    let sig = if f15 { "glue-expired-before-ns" } else { "resolution-failed" };
                     return out.fail(sig, format!("question {i} ({} {}): {e:?}; authoritative data: {:?}; exchanges: {}", q.name, q.qtype, t, describe(&log)));
                 }
                 Ok(Ok(r)) => r,
@@ -301,7 +356,7 @@ impl Prop for Sessions {
             if let Err((s, d)) = compare_with_truth(&res, &t) {
                 return out.fail(s, format!("question {i} ({} {}): {d}; exchanges: {}", q.name, q.qtype, describe(&log)));
             }
-            match referrals_monotone(u, &log) {
+            match referrals_monotone(u, &log, q) {
                 Err((s, d)) => return out.fail(s, format!("question {i}: {d}; exchanges: {}", describe(&log))),
                 Ok(referrals) => {
                     let sub_lookup = log.iter().any(|e| question_of(e.request.as_ref()).map_or(false, |lq| u.hosts.iter().any(|h| h.name == lq.name.lower()) && lq.name.lower() != q.name.lower()));
